@@ -3,6 +3,7 @@ import asyncio
 import logging
 import os
 import random
+import shutil
 import struct
 import time
 
@@ -23,7 +24,8 @@ RULE = ("for slow SyncGroup and FastSyncGroup (real program load and real "
         "cancels the group's task at iteration k - a superset of the "
         "suspension points of the task and of the helper tasks it gathers. "
         "Process-based kind: the parent-side ProcessSyncGroup.wait_for_"
-        "process with a real spawned child obeying the shared running flag, "
+        "process with the real ProcessSyncGroup.start(): a real spawned child "
+        "running the real subprocess_run / run over the simulated bus, "
         "cancelled at several points. Oracle: awaiting the task raises "
         "CancelledError and nothing else; every terminal model that received "
         "an OPERATIONAL request later received SAFE-OPERATIONAL; the slot "
@@ -33,9 +35,11 @@ RULE = ("for slow SyncGroup and FastSyncGroup (real program load and real "
         "still running")
 ASSUMPTIONS = ["exactly one cancellation per run, injected during start-up "
                "or normal cycling (not inside the clean-up itself)",
-               "the child process of the process-based kind is a stand-in "
-               "that obeys the running flag; the real subprocess_run needs "
-               "root scheduling and a network interface"]
+               "process-based kind: only ParallelEtherCat.run is replaced "
+               "(inside the child) by the simulated bus; cancellation points "
+               "are wall-clock delays from 0 (child still booting) to 1.5 s "
+               "(cycling), the verdict is logical (task outcome, child exit, "
+               "frames exchanged after the stop request, AL-control log)"]
 MIN_EVALUATIONS = {"quick": 150, "thorough": 3000}
 LEVEL = "fault_enumeration"
 
@@ -46,7 +50,7 @@ def plan(tier, seed):
               for i in range(8)]
     shards += [dict(seed=seed, shard=20 + i, n=max(1, n // 2), kind="fast",
                     tier=tier) for i in range(6)]
-    shards += [dict(seed=seed, shard=40 + i, n=2 if tier == "quick" else 8,
+    shards += [dict(seed=seed, shard=40 + i, n=5 if tier == "quick" else 25,
                     kind="process", tier=tier) for i in range(2)]
     return shards
 
@@ -191,29 +195,55 @@ def slow_fast(kind, params, res):
 
 
 def process_leg(params, res):
+    """the real ProcessSyncGroup.start(): a real spawned child runs the real
+    subprocess_run / subprocess_loop / run over the simulated bus (only
+    ParallelEtherCat.run is replaced, inside the child); the parent cancels
+    the group's task after a seeded delay - from "the child is still
+    booting" to "cycling" - and the verdict is read from the task, the
+    child's exit and the AL-control requests the child's bus recorded"""
+    import json
+    import os
+    import tempfile
+    import time
     rng = random.Random(params["seed"] * 100357 + params["shard"])
+    SimEC = procchild.SimParallelEtherCat
     for i in range(params["n"]):
-        delay = rng.choice([0.0, 0.01, 0.05, 0.15, 0.4])
-        desc = dict(kind="process", cancel_after=delay)
+        delays = [0.0, 0.02, 0.1, 0.3, 0.6, 1.0, 1.5, 0.05, 0.2, 0.45]
+        delay = delays[(i * 2 + params["shard"]) % len(delays)]
+        terms = simgroup.gen_terms(rng, nmax=2)
+        desc = dict(kind="process", cancel_after=delay, terms=terms)
+        tmp = tempfile.mkdtemp(prefix="vf-c24p-")
+        report = os.path.join(tmp, "report.json")
 
         async def main():
-            ec = ParallelEtherCat("vf")
-            sg = ProcessSyncGroup(ec, [])
-            sg.runningValue = sg.ctx.Value("B")
-            sg.runningValue.value = True
-            sg.process = sg.ctx.Process(target=procchild.obedient_child,
-                                        args=(sg.runningValue,))
-            sg.process.start()
-            task = asyncio.ensure_future(sg.wait_for_process())
+            ec = SimEC("vf")
+            ec.sim_terms, ec.report = terms, report
+            ts, devs = simgroup.make_rig(terms, ec)
+            sg = ProcessSyncGroup(ec, devs)
+            ec.ops = sg.ctx.Value("I")
+            task = sg.start()
             await asyncio.sleep(delay)
             running = not task.done()
+            ops_at_cancel = ec.ops.value
             task.cancel()
-            try:
-                await asyncio.wait_for(asyncio.shield(asyncio.gather(
-                    task, return_exceptions=True)), 20)
-            except asyncio.TimeoutError:
+            t0 = time.time()
+            verdict = None
+            while not task.done():
+                await asyncio.sleep(0.05)
+                # logical bound: the child keeps cycling although it was
+                # told to stop (hundreds of frames after the request)
+                if ec.ops.value - ops_at_cancel > 400 and \
+                        sg.process.is_alive():
+                    verdict = "keeps-running"
+                    break
+                if time.time() - t0 > 90:
+                    verdict = "watchdog"
+                    break
+            if verdict:
                 sg.process.kill()
-                return "hangs", running, None
+                task.cancel()
+                await asyncio.gather(task, return_exceptions=True)
+                return verdict, running, None, ec.ops.value - ops_at_cancel
             if task.cancelled():
                 oc = "cancelled"
             else:
@@ -224,27 +254,67 @@ def process_leg(params, res):
             alive = sg.process.is_alive()
             if alive:
                 sg.process.kill()
-            return oc, running, alive
+            return oc, running, alive, ec.ops.value - ops_at_cancel
         try:
-            oc, running, alive = asyncio.run(main())
+            oc, running, alive, ops_after = asyncio.run(main())
         except Exception as ex:
+            import traceback
             res.violation("unexplained:process-harness",
-                          f"{type(ex).__name__}: {ex}", case=desc)
+                          f"{type(ex).__name__}: {ex}", case=desc,
+                          witness=traceback.format_exc()[-1200:])
+            shutil.rmtree(tmp, ignore_errors=True)
             continue
+        rep = None
+        if os.path.exists(report):
+            with open(report) as f:
+                rep = json.load(f)
+        shutil.rmtree(tmp, ignore_errors=True)
         res.case([desc, i], nontrivial=running)
         res.count("process_points")
+        res.count("process_frames_after_cancel", ops_after or 0)
+        if oc == "watchdog":
+            res.inconc(f"process-based group: neither exit nor progress "
+                       f"within 90 s after cancel ({desc})")
+            continue
+        if oc == "keeps-running":
+            res.violation("unexplained:process-child-keeps-running",
+                          f"cancelled after {delay}s: the subprocess "
+                          f"exchanged {ops_after} more frames and did not "
+                          f"stop", case=desc)
+            continue
         if oc != "cancelled":
             res.violation("process-group-cancel-raises-unbound-error"
                           if "UnboundLocalError" in oc or "NameError" in oc
                           else "unexplained:process-outcome",
                           f"process-based group cancelled after {delay}s "
                           f"ended '{oc}'", case=desc)
-        elif alive:
+            continue
+        if alive:
             res.violation("unexplained:process-child-alive",
                           "child still alive after the cancelled task ended",
                           case=desc)
+            continue
+        if rep is None:
+            res.count("process_child_left_no_report")
+            res.violation("unexplained:process-child-died",
+                          "the subprocess ended without leaving its bus "
+                          "report (it did not leave ec.run() normally)",
+                          case=desc)
+            continue
+        res.count("process_reports")
+        bad = None
+        for name, ctl in rep["al"].items():
+            if 8 in ctl:
+                res.count("process_terminals_asked_operational")
+                last_op = len(ctl) - 1 - ctl[::-1].index(8)
+                if 4 not in ctl[last_op + 1:]:
+                    bad = (f"{name} was asked to go OPERATIONAL but not "
+                           f"back to SAFE-OPERATIONAL (requests {ctl})")
+        if bad:
+            res.violation("unexplained:process-safeop", bad, case=desc)
         elif len(res.samples) < 3:
-            res.sample(dict(desc, outcome=oc, child_alive=alive))
+            res.sample(dict(desc, outcome=oc, al_requests=rep["al"],
+                            frames_after_cancel=ops_after))
 
 
 def run_shard(params):
